@@ -424,10 +424,25 @@ func (sc *specCtx) binary(e *CBin) Val {
 		if n, ok := vc.litVal(y.S); ok {
 			return &Term{vc.andConst(x, n, rt), "Int", rt}
 		}
+		if isU8(x.T) && isU8(y.T) {
+			return &Term{"(band8 " + x.S + " " + y.S + ")", "Int", rt}
+		}
 		return &Term{"(band " + x.S + " " + y.S + ")", "Int", rt}
 	case "|":
+		if s, ok := vc.bitConst(x, y, 64, true, func(v, p string) string { return "(ite (= (bitk " + v + " " + p + ") 0) " + p + " 0)" }); ok {
+			return &Term{s, "Int", rt}
+		}
+		if isU8(x.T) && isU8(y.T) {
+			return &Term{"(bor8 " + x.S + " " + y.S + ")", "Int", rt}
+		}
 		return &Term{"(bor " + x.S + " " + y.S + ")", "Int", rt}
 	case "^":
+		if s, ok := vc.bitConst(x, y, 64, true, func(v, p string) string { return "(ite (= (bitk " + v + " " + p + ") 0) " + p + " (- " + p + "))" }); ok {
+			return &Term{s, "Int", rt}
+		}
+		if isU8(x.T) && isU8(y.T) {
+			return &Term{"(bxor8 " + x.S + " " + y.S + ")", "Int", rt}
+		}
 		return &Term{"(bxor " + x.S + " " + y.S + ")", "Int", rt}
 	}
 	unsup("spec: operator %s", e.Op)
